@@ -77,7 +77,7 @@ def rule_idx_pos(ctx, cfg, F):
                 sers = [(b, t) for b, t in parent.calls() if strip_generics(t.get("callee") or "") == "serde::Serialize::serialize"]
                 for b, t in sers:
                     rs = trp.roots_of_operand(t["args"][0])
-                    ok = all((r.kind == "call" and r.id == "std::thread::LocalKey::with") or (r.kind == "const" and r.id == USIZE_MAX) for r in rs) and any(r.kind == "call" for r in rs)
+                    ok = all((r.kind == "call" and (r.id == "std::thread::LocalKey::with" or _runs_closure(parent, r, f))) or (r.kind == "const" and r.id == USIZE_MAX) for r in rs) and any(r.kind == "call" for r in rs)
                     ty = _ser_int_type(t)
                     ser_types.add(ty)
                     if ok:
@@ -114,6 +114,20 @@ def rule_idx_pos(ctx, cfg, F):
         R.violate("integer-type-mismatch", "indices are written as %s but read as %s" % (sorted(ser_types), sorted(de_types)), config=cfg)
     elif ser_types and de_types:
         R.ok("index integer type agrees: %s" % sorted(ser_types), None, cfg)
+
+
+def _runs_closure(parent, root, closure_fn):
+    """the call at `root` is `FnOnce::call_once(c, ..)` (or call_mut / call) with c the given closure of this crate: its result is the closure's result"""
+    if root.block is None:
+        return False
+    t = parent.term(root.block)
+    if strip_generics(t.get("callee") or "") not in ("std::ops::FnOnce::call_once", "std::ops::FnMut::call_mut", "std::ops::Fn::call") or not t["args"]:
+        return False
+    a = t["args"][0]
+    if a["k"] == "c":
+        return a.get("closure") == closure_fn.path
+    tr = Tracer(parent)
+    return any((r.kind == "agg" and r.id == closure_fn.path) for r in tr.roots_of_operand(a))
 
 
 def _ser_int_type(t):
@@ -807,6 +821,26 @@ def rule_recv_cap_const(ctx, cfg, F):
 
 # =========================================================================== C05
 
+def _closure_touches_table(F, parent, t, callee_names):
+    """`call_once(c, ..)` where c is a closure of this crate whose body applies one of the named operations to a region side table"""
+    a = t["args"][0] if t["args"] else None
+    if a is None:
+        return False
+    cands = []
+    if a["k"] == "c" and a.get("closure") in F.fns:
+        cands.append(F.fns[a["closure"]])
+    elif a["k"] != "c":
+        for r in Tracer(parent).roots_of_operand(a):
+            if r.kind == "agg" and r.id in F.fns:
+                cands.append(F.fns[r.id])
+    for g in cands:
+        for b2, t2 in g.calls():
+            nm = strip_generics(callee_name(t2))
+            if (nm in callee_names or strip_generics(t2.get("callee") or "") in callee_names) and "OsIpcSharedMemory" in " ".join(t2.get("generics", [])):
+                return True
+    return False
+
+
 def rule_shm_sentinel(ctx, cfg, F):
     R = ctx.rule("SHM-SENTINEL", "IpcSharedMemory::serialize writes usize::MAX exactly on the empty (None) edge; deserialize yields the empty value exactly on the `== usize::MAX` edge")
     ser = next((f for f in F.fns.values() if f.impl_trait == "serde::Serialize" and f.impl_self == "ipc::IpcSharedMemory"), None)
@@ -826,6 +860,8 @@ def rule_shm_sentinel(ctx, cfg, F):
                 yield ("wrote", "MAX")
         t = ser.term(b)
         if t["t"] == "call" and strip_generics(callee_name(t)) == "std::thread::LocalKey::with":
+            yield ("wrote", "index")
+        if t["t"] == "call" and strip_generics(t.get("callee") or "") in ("std::ops::FnOnce::call_once", "std::ops::FnMut::call_mut") and _closure_touches_table(F, ser, t, ("std::vec::Vec::push",)):
             yield ("wrote", "index")
         # the closure inlined into this body: the push onto the region table is the "index" step
         if t["t"] == "call" and strip_generics(callee_name(t)) == "std::vec::Vec::push" and "OsIpcSharedMemory" in " ".join(t.get("generics", [])):
@@ -859,6 +895,9 @@ def rule_shm_sentinel(ctx, cfg, F):
             if nm == "ipc::IpcSharedMemory::empty":
                 yield ("made", "empty")
             if nm == "std::thread::LocalKey::with":
+                yield ("made", "lookup")
+            if strip_generics(t.get("callee") or "") in ("std::ops::FnOnce::call_once", "std::ops::FnMut::call_mut") and _closure_touches_table(
+                    F, de, t, ("core::slice::get_mut", "core::slice::get", "std::vec::Vec::get_mut", "std::ops::Index::index", "std::ops::IndexMut::index_mut")):
                 yield ("made", "lookup")
             # the closure inlined into this body: an indexed access of the region table
             if (nm in ("core::slice::get_mut", "core::slice::get", "std::vec::Vec::get_mut") or strip_generics(t.get("callee") or "") in ("std::ops::Index::index", "std::ops::IndexMut::index_mut")) \
